@@ -27,6 +27,7 @@ import nfc.llcp
 import nfc.llcp.llc
 from symx.envpatch import CLOCK
 from env.recdevice import (RecDevice, Trace, Env, UnsupportedEnv, T2TagEnv,
+                           T4ATagEnv,
                            ReaderEnv, PeerEnv, SlotEnv, HarnessLimit,
                            make_frontend, open_frontend, new_frontend)
 
@@ -196,6 +197,11 @@ def make_env(sx, tr, name):
         return PeerEnv(sx, tr, "initiator", max_symm=3)
     if name == "peer-target-3":
         return PeerEnv(sx, tr, "target", max_symm=3)
+    if name == "t4a":
+        return T4ATagEnv(sx, tr, max_reads=1)
+    if name == "peer-target-busy":
+        # answers SYMM to everything for longer than any scenario lasts
+        return PeerEnv(sx, tr, "target", max_symm=80, always_symm=True)
     if name == "t2-short":
         return T2TagEnv(sx, tr, max_reads=1, gone_kinds=("timeout",))
     if name == "t2-stay":
@@ -237,8 +243,13 @@ def make_env(sx, tr, name):
 def connect_scn(sx, mode="contract", modes=("rdwr",), env="none", startup=None,
                 vals=None, K=2, fault=None, targets=None, iterations=None,
                 beep=("default",), role=None, io=False, use_terminate=True,
-                via_open=False, hook=None):
+                via_open=False, hook=None, traffic=0, grab=0):
     """one clf.connect() conversation.
+
+    traffic    llcp: on-connect queues that many UI datagrams (MSG_DONTWAIT)
+               on a logical data link socket: sustained outbound traffic
+    grab       C15: after any of the first `grab` callbacks / terminate polls
+               (picked) "another thread" takes clf.lock and keeps it
 
     modes      which of rdwr/llcp/card options are passed
     startup    {mode: [on-startup result kinds to pick from]}
@@ -268,6 +279,30 @@ def connect_scn(sx, mode="contract", modes=("rdwr",), env="none", startup=None,
         # the application talks to the tag inside the callback
         tag.is_present
 
+    def traffic_action(llc):
+        # the application keeps the send queue of the link non-empty
+        sock = nfc.llcp.Socket(llc, nfc.llcp.LOGICAL_DATA_LINK)
+        sock.bind(None)
+        for i in range(traffic):
+            sock.sendto(b"DATA", 16, nfc.llcp.MSG_DONTWAIT)
+
+    grabs = [0]
+
+    def grabbing(f):
+        if not grab:
+            return f
+
+        def g(*a):
+            r = f(*a)
+            if clf.lock.owner != "other" and not clf.lock.locked() \
+                    and grabs[0] < grab:
+                grabs[0] += 1
+                if sx.pick("grab#%d" % grabs[0], [0, 1]):
+                    tr.add("grab")
+                    clf.lock.hold_as_other()
+            return r
+        return g
+
     for m in modes:
         o = {}
         kind = sx.pick("startup." + m, startup.get(m, ["default"]))
@@ -288,7 +323,9 @@ def connect_scn(sx, mode="contract", modes=("rdwr",), env="none", startup=None,
                 later = [v for v in TF if v in vs] or vs[:1]
                 action = io_action if (io and m == "rdwr"
                                        and name == "on-connect") else None
-                o[name] = make_cb(sx, tr, m, name, vs, later, action)
+                if traffic and m == "llcp" and name == "on-connect":
+                    action = traffic_action
+                o[name] = grabbing(make_cb(sx, tr, m, name, vs, later, action))
         if m == "rdwr":
             if targets is not None:
                 o['targets'] = list(targets)
@@ -307,10 +344,15 @@ def connect_scn(sx, mode="contract", modes=("rdwr",), env="none", startup=None,
             o['role'] = role
         options[m] = o
     if use_terminate:
-        options['terminate'] = make_terminate(sx, tr, K)
+        options['terminate'] = grabbing(make_terminate(sx, tr, K))
     spec['use_terminate'] = use_terminate
+    spec['traffic'] = traffic
 
     status, value = call(clf.connect, **options)
+    if grab:
+        if clf.lock.blocked:
+            sx.reach("contended:connect:waits-for-lock")
+        clf.lock.release_other()
     check_connect(chk, tr, spec, status, value, envo)
     return dict(result=describe(status, value),
                 trace=tr.names(("cb", "poll", "env", "fault")),
@@ -459,8 +501,9 @@ def check_connect(chk, tr, spec, status, value, envo):
                 elif f[0] == "env" and f[1] in ("read-ok", "gone", "reader-cmd",
                                                 "reader-silent", "link-broken",
                                                 "peer-symm", "peer-ends"):
-                    chk.check(polled, "terminate-not-polled-between-exchanges:"
-                              + e[1])
+                    chk.check(polled, "llcp-terminate-not-polled-while-sending"
+                              if spec.get('traffic') else
+                              "terminate-not-polled-between-exchanges:" + e[1])
                     polled = False
 
     # ---- release follows the loss of the peer, not the terminate callback:
@@ -632,6 +675,16 @@ def phase_of(tr, spec):
     return "start"
 
 
+def activation_failed(ev, i):
+    """the environment made the activation that follows event i fail"""
+    for f in ev[i + 1:]:
+        if f[0] in ("cb", "poll", "fault"):
+            return False
+        if f[0] == "env" and f[1] == "activation-fault":
+            return True
+    return False
+
+
 def check_progress(chk, tr, spec, active):
     ev = tr.ev
 
@@ -660,7 +713,7 @@ def check_progress(chk, tr, spec, active):
                                                and n[3] is e[2])),
                           "discovered-target-not-offered-to-on-discover")
             elif spec['given'].get(("rdwr", "on-connect")) and \
-                    "llcp" not in spec['modes']:
+                    "llcp" not in spec['modes'] and not activation_failed(ev, i):
                 chk.check(n is not None and n[0] != "poll" and
                           (n[0] == "fault" or n[2] == "on-connect"),
                           "discovered-tag-not-offered-to-on-connect")
@@ -688,6 +741,20 @@ def check_progress(chk, tr, spec, active):
             if e[1] == "card" and spec['env'] in ("reader-nocmd", "reader-a"):
                 chk.check(n is None or n[2] != "on-connect",
                           "on-connect-without-emulation")
+                continue
+            failed = False
+            for f in ev[i + 1:]:
+                if f[0] in ("cb", "poll", "fault"):
+                    break
+                if f[0] == "env" and f[1] == "activation-fault":
+                    failed = True
+            if failed:
+                # the tag did not survive activation: no on-connect for this
+                # round, discovery goes on
+                chk.sx.reach("connect:activation-failed")
+                chk.check(n is None or not (n[0] == "cb" and
+                                            n[2] == "on-connect"),
+                          "on-connect-after-failed-activation")
                 continue
             chk.check(n is not None and (n[0] == "fault" or (
                 n[0] == "cb" and n[1] == e[1] and n[2] == "on-connect")),
@@ -1313,6 +1380,18 @@ def connect_partitions(tier):
         modes=["rdwr"], env="t2-short", startup=dict(rdwr=["default"]),
         vals={"on-discover": ["True"], "on-connect": SMALL,
               "on-release": ["True"]}, use_terminate=False)))
+    # activation of a discovered tag fails once (Type 4A: RATS unanswered,
+    # garbled, protocol error); the next round finds the tag normally
+    P.append(("rdwr:t4a:activation", dict(
+        modes=["rdwr"], env="t4a", startup=dict(rdwr=["default"]),
+        vals={"on-discover": ["True", "default"], "on-connect": SMALL,
+              "on-release": ["True"]}, K=K + 1, targets=["106A"])))
+    # sustained outbound LLCP traffic must not keep terminate() from being seen
+    P.append(("llcp:peer-target:traffic", dict(
+        modes=["llcp"], env="peer-target-busy", role="initiator",
+        startup=dict(llcp=["llc"]),
+        vals={"on-connect": ["True"], "on-release": ["True"]}, K=K + 1,
+        traffic=30)))
     # no terminate function: only the loss of the peer can end connect()
     P.append(("card:no-terminate", dict(
         modes=["card"], env="reader", startup=dict(card=["target"]),
@@ -1519,6 +1598,7 @@ MUST_REACH = ["connect:false:IOError", "connect:false:KeyboardInterrupt",
               "connect:none:no-options", "connect:none:terminated",
               "connect:true:default-callbacks"] + \
     ["connect:peer-lost:" + m for m in ("rdwr", "llcp", "card")] + \
+    ["connect:activation-failed"] + \
     ["connect:%s:%s" % (w, m) for w in ("object", "released")
      for m in ("rdwr", "llcp", "card")] + \
     ["sense:0", "sense:1", "sense:2", "sense:3",
@@ -1541,14 +1621,19 @@ _B = (
     "Environments (every decision picked at the moment the code asks): empty "
     "field; generic Type 2 Tag (SYMBOLIC 16 byte memory image and NAK byte) "
     "present at once or after one sense round, vanishing at presence check "
-    "0..%(rd)d by silence / NAK / CRC error, or outliving terminate; driver "
+    "0..%(rd)d by silence / NAK / CRC error, or outliving terminate; minimal "
+    "Type 4A Tag whose first RATS is answered / unanswered / garbled / a "
+    "protocol error (activation fault; found again in the next round); driver "
     "raising UnsupportedTargetError for Type A or for everything; reader that "
     "activates the emulated Type 3 Tag at once or after one idle listen, sends "
     "0..%(rd)d polling/request-response commands mixed with silent periods, "
     "then leaves (BrokenLinkError) or stays silent for ever; reader without a "
     "first command and Type A reader (nothing to emulate); NFC-DEP/LLCP peer "
     "as initiator or as 212F passive target, 0..%(rd)d SYMM exchanges then "
-    "silence / DSL_REQ / LLCP DISC, wrong LLCP magic, peer link timeout "
+    "silence / DSL_REQ / LLCP DISC, wrong LLCP magic, an application that "
+    "queues 30 UI datagrams in on-connect against a peer answering SYMM "
+    "throughout (sustained outbound traffic), connect() without terminate "
+    "function in every mode (only the loss of the peer ends it), peer link timeout "
     "SYMBOLIC 10..2550 ms (MonoFloat deadlines) in two partitions; one "
     "host-link fault (IOError once, IOError from then on, KeyboardInterrupt) "
     "at any of the first %(fb)d driver calls.  sense(): 0..3 targets out of "
